@@ -110,7 +110,8 @@ def shard_main(inp, outp):
     from vmon import repo
     from vmon.ctx import Ctx
 
-    spec = json.load(open(inp))
+    with open(inp) as f:
+        spec = json.load(f)
     # a changed library may ask for absurd amounts of memory (a length field taken for a byte count): let such a request fail
     # inside the call that makes it (MemoryError, observed by the monitor) instead of taking the machine down
     try:
